@@ -7,9 +7,9 @@
      sm_record N M        N seeded random dialogues of M operations
      sm_alter <tier>      every position of a few protected APDUs altered, then unwrapped
      cvc_replay           stdin: "cvc id=N ..." (cases enumerated by MC_CvcChain)
-     cvc_alter <tier>     every single-octet alteration of a signed certificate, per key length
-     cvc_round <tier>     Wrap -> Unwrap round trips over field classes
-     bpki <tier>          key / share containers: wrap, unwrap, wrong password, altered octets
+     cvc_alter <tier>     every single-octet alteration of a signed certificate, per key length (tier small: l = 128 only)
+     bpki <tier>          key / share containers: wrap, unwrap, wrong passwords, altered octets (tier small: no sweep)
+     curves               p, a, b of the standard curves (for tools/gen_btok_curves.py)
    All states are allocated at exactly their _keep() sizes, all buffers at their exact lengths. */
 #include "vx.h"
 #include <bee2/core/err.h>
@@ -369,17 +369,19 @@ static int smMain(int argc, char** argv)
 			smReset(&r, d);
 			for (s = 0; s < m; ++s)
 			{
-				/* biased towards the legal flow inc,inc,wrap,unwrap with occasional alterations and stray calls */
+				/* biased towards the legal flow inc,inc,wrap,unwrap with alterations, stray calls and desynchronisation */
 				static const char* flow[] = {"iT", "iC", "wT", "uC", "iC", "iT", "wC", "uT"};
+				static size_t fp = 0;
 				size_t x = vxRandN(10);
-				const char* t = x < 6 ? flow[(size_t)s % 8] : x == 6 ? "a" : flow[vxRandN(8)];
+				const char* t = x < 5 ? flow[fp++ % 8] : x == 5 ? "a" : x == 6 ? "u" : flow[vxRandN(8)];
 				int data = (int)vxRandN(3) != 0;
+				if (s == 0) fp = 0;
 				if (t[0] == 'i') smInc(&r, t[1] == 'C');
 				else if (t[0] == 'w' && t[1] == 'T') { size_t cl, rl; pickCmdForm(d, w++, data, &cl, &rl); if (cl > 256) cl = 33; smCmdWrap(&r, 0, cl, rl, 0x00); }
 				else if (t[0] == 'w') { size_t rl = pickRespForm(d, w++, data); if (rl > 256) rl = 47; smRespWrap(&r, 1, rl); }
 				else if (t[0] == 'u' && r.kind == 1) smCmdUnwrapBuf(&r, 1, r.msg, r.len);
 				else if (t[0] == 'u' && r.kind == 2) smRespUnwrapBuf(&r, 0, r.msg, r.len);
-				else if (t[0] == 'a' && r.kind) smAlter(&r, "MBHS"[vxRandN(4)], -1, 0);
+				else if (t[0] == 'a' && r.kind && !r.altered) smAlter(&r, "MBHS"[vxRandN(4)], -1, 0);
 				else smInc(&r, (int)vxRandN(2));
 			}
 		}
@@ -414,11 +416,14 @@ static int smMain(int argc, char** argv)
 		}
 	}
 	else return 2;
+	free(r.st[0]); free(r.st[1]); free(r.msg); free(r.plain);
+	fflush(stdout);
 	return 0;
 }
 
 int cvcMain(int argc, char** argv);
 int bpkiMain(int argc, char** argv);
+static err_t kpStd(bign_params* p, size_t len);
 
 int main(int argc, char** argv)
 {
@@ -426,6 +431,17 @@ int main(int argc, char** argv)
 	if (strncmp(argv[1], "sm_", 3) == 0) return smMain(argc, argv);
 	if (strncmp(argv[1], "cvc_", 4) == 0) return cvcMain(argc, argv);
 	if (strncmp(argv[1], "bpki", 4) == 0) return bpkiMain(argc, argv);
+	if (strcmp(argv[1], "curves") == 0)      /* p, a, b of the standard curves (tools/gen_btok_curves.py) */
+	{
+		static const size_t Ls[] = {24, 32, 48, 64}; size_t i;
+		for (i = 0; i < 4; ++i)
+		{
+			bign_params prm[1]; if (kpStd(prm, Ls[i]) != ERR_OK) return 3;
+			jBegin(); jInt("no", (long long)(2 * Ls[i])); jOct("p", prm->p, 2 * Ls[i]); jOct("a", prm->a, 2 * Ls[i]); jOct("b", prm->b, 2 * Ls[i]);
+			jOct("q", prm->q, 2 * Ls[i]); jOct("yG", prm->yG, 2 * Ls[i]); jEnd();
+		}
+		return 0;
+	}
 	fprintf(stderr, "unknown mode %s\n", argv[1]);
 	return 2;
 }
@@ -610,9 +626,9 @@ static void cvcCase(vx_cmd* c)
 			btok_cvc_t w[1]; memcpy(w, v->c, sizeof w);
 			if (i == 0)
 			{
-				if (v->pk == 0) w->pubkey_len = 0;          /* the public key is derived from the private one */
+				if (v->pk == 0 && v->sg == 'p') w->pubkey_len = 0;          /* the public key is derived from the private one */
 				rc = btokCVCWrap(0, &len, w, sk->priv, sk->len);
-				if (rc == ERR_OK) { v->cert = (octet*)xalloc(len); memcpy(w, v->c, sizeof w); if (v->pk == 0) w->pubkey_len = 0; rc = btokCVCWrap(v->cert, &v->cert_len, w, sk->priv, sk->len); }
+				if (rc == ERR_OK) { v->cert = (octet*)xalloc(len); memcpy(w, v->c, sizeof w); if (v->pk == 0 && v->sg == 'p') w->pubkey_len = 0; rc = btokCVCWrap(v->cert, &v->cert_len, w, sk->priv, sk->len); }
 				callRes(id, "Wrap", i, rc, rc == ERR_OK ? (v->cert_len == len && sameContent(w, v->c)) : -1);
 			}
 			else if (is->cert)
@@ -658,8 +674,9 @@ int cvcMain(int argc, char** argv)
 		/* every single-octet alteration of a signed certificate (issued by a root of the same key length):
 		   Unwrap without a key, Unwrap / Val / Val2 with the issuer's key */
 		int thorough = argc > 2 && strcmp(argv[2], "thorough") == 0;
+		int small = argc > 2 && strcmp(argv[2], "small") == 0;       /* the suite version: one key length */
 		static const size_t Ls[] = {32, 24, 48, 64}; size_t li, pos; int rep, reps = thorough ? 3 : 1;
-		for (li = 0; li < 4; ++li) for (rep = 0; rep < reps; ++rep)
+		for (li = 0; li < (small ? 1u : 4u); ++li) for (rep = 0; rep < reps; ++rep)
 		{
 			kp_t root, leaf; btok_cvc_t c0[1], c1[1], got[1]; octet* cert0; octet* cert1; size_t n0 = 0, n1 = 0;
 			kpGen(&root, Ls[li]); kpGen(&leaf, Ls[(li + (size_t)rep) % 4]);
@@ -676,7 +693,7 @@ int cvcMain(int argc, char** argv)
 			cert1 = (octet*)xalloc(n1); btokCVCIss(cert1, &n1, c1, cert0, n0, root.priv, root.len);
 			for (pos = 0; pos <= n1; ++pos)      /* pos = n1: the unaltered certificate */
 			{
-				int mask = 1 << vxRandN(8); err_t r0, rk, rv, rv2; octet* x = (octet*)xalloc(n1);
+				int mask = small ? 1 : 1 << vxRandN(8); err_t r0, rk, rv, rv2; octet* x = (octet*)xalloc(n1);
 				memcpy(x, cert1, n1); if (pos < n1) x[pos] ^= (octet)mask; else mask = 0;
 				r0 = btokCVCUnwrap(got, x, n1, 0, 0);
 				jBegin(); jStr("e", "Op"); jStr("op", "cvcAlt"); jInt("L", (long long)root.len); jInt("pos", (long long)pos + 1); jInt("mask", mask);
@@ -704,4 +721,94 @@ int cvcMain(int argc, char** argv)
 	return 0;
 }
 
-int bpkiMain(int argc, char** argv) { (void)argc; (void)argv; return 2; }
+/* =========================================================================== bpki containers */
+static void bpkiLine(const char* op, const char* kind, const octet* key, size_t klen, const octet* pwd, size_t plen,
+	const octet* salt, size_t iter, const octet* epki, size_t elen, err_t rc, const octet* out, size_t olen, const char* cls, long pos, int mask, int full)
+{
+	octet dk[32];
+	jBegin(); jStr("e", "Op"); jStr("op", op); jStr("kind", kind); jStr("cls", cls);
+	jOct("key", key, klen); jOct("pwd", pwd, plen); jOct("salt", salt, 8); jInt("iter", (long long)iter);
+	/* the PBKDF2 key of the presented password under (salt, iter), by the library's own beltPBKDF2 (tied to its
+	   definition by C01); lines with full = true are recomputed from the password by TLC */
+	if (iter >= 1 && iter <= 100000 && beltPBKDF2(dk, pwd, plen, iter, salt, 8) == ERR_OK) jOct("dk", dk, 32); else jOct("dk", 0, 0);
+	jBool("full", full); jInt("pos", pos); jInt("mask", mask);
+	jOct("epki", epki, elen); jStr("rc", errName(rc)); jOct("out", out, olen); jEnd();
+}
+typedef err_t (*wrap_f)(octet*, size_t*, const octet*, size_t, const octet*, size_t, const octet*, size_t);
+typedef err_t (*unwrap_f)(octet*, size_t*, const octet*, size_t, const octet*, size_t);
+
+int bpkiMain(int argc, char** argv)
+{
+	int thorough = argc > 2 && strcmp(argv[2], "thorough") == 0;
+	int small = argc > 2 && strcmp(argv[2], "small") == 0;           /* the suite version: no alteration sweep */
+	static const size_t klens[2][4] = {{32, 24, 48, 64}, {17, 25, 33, 0}};
+	static const size_t iters[] = {10000, 10001, 12345};
+	int k; size_t li, nfull = 0;
+	vxSeed(vxEnvSeed());
+	for (k = 0; k < 2; ++k) for (li = 0; li < (small ? 1u : 4u) && klens[k][li]; ++li)
+	{
+		const char* kind = k ? "share" : "priv"; wrap_f W = k ? bpkiShareWrap : bpkiPrivkeyWrap; unwrap_f U = k ? bpkiShareUnwrap : bpkiPrivkeyUnwrap;
+		size_t kl = klens[k][li], plen = 1 + vxRandN(12), iter = iters[(li + (size_t)k) % 3], elen = 0, olen = 0, pos, e2 = 0;
+		octet key[64], pwd[16], pwd2[16], salt[8], out[64]; octet* epki; err_t rc; int full;
+		vxRandBuf(key, kl); if (k) key[0] = (octet)(1 + vxRandN(16));
+		vxRandBuf(pwd, plen); vxRandBuf(salt, 8);
+		full = thorough && iter == 10000 && nfull < 2 ? (++nfull, 1) : 0;
+		rc = W(0, &elen, key, kl, pwd, plen, salt, iter);
+		if (rc != ERR_OK) { bpkiLine("bpkiW", kind, key, kl, pwd, plen, salt, iter, 0, 0, rc, 0, 0, "len", 0, 0, 0); continue; }
+		epki = (octet*)xalloc(elen);
+		rc = W(epki, &e2, key, kl, pwd, plen, salt, iter);
+		bpkiLine("bpkiW", kind, key, kl, pwd, plen, salt, iter, epki, rc == ERR_OK ? e2 : 0, rc, 0, 0, "wrap", 0, 0, full);
+		if (rc != ERR_OK || e2 != elen) { free(epki); continue; }
+		/* the right password */
+		memset(out, 0, sizeof out); olen = 0;
+		rc = U(0, &olen, epki, elen, pwd, plen);
+		if (rc == ERR_OK && olen <= sizeof out) rc = U(out, &olen, epki, elen, pwd, plen);
+		bpkiLine("bpkiU", kind, key, kl, pwd, plen, salt, iter, epki, elen, rc, out, rc == ERR_OK ? olen : 0, "right", 0, 0, 0);
+		/* wrong passwords: one bit flipped, one octet shorter, one octet longer, empty */
+		for (pos = 0; pos < 4; ++pos)
+		{
+			size_t p2 = plen;
+			memcpy(pwd2, pwd, plen);
+			if (pos == 0) pwd2[vxRandN(plen)] ^= (octet)(1 << vxRandN(8));
+			else if (pos == 1) p2 = plen - 1;
+			else if (pos == 2) pwd2[p2++] = 0;
+			else p2 = 0;
+			memset(out, 0, sizeof out); olen = 0;
+			rc = U(out, &olen, epki, elen, pwd2, p2);
+			bpkiLine("bpkiU", kind, key, kl, pwd2, p2, salt, iter, epki, elen, rc, out, rc == ERR_OK ? olen : 0, "wrongpwd", 0, 0, 0);
+		}
+		/* every single-octet alteration of the container (quick: one key length per kind) */
+		if ((thorough || li == 0) && !small)
+			for (pos = 0; pos < elen; ++pos)
+			{
+				int mask = 1 << vxRandN(8); octet* x = (octet*)xalloc(elen);
+				memcpy(x, epki, elen); x[pos] ^= (octet)mask;
+				memset(out, 0, sizeof out); olen = 0;
+				rc = U(out, &olen, x, elen, pwd, plen);
+				bpkiLine("bpkiU", kind, key, kl, pwd, plen, salt, 0, x, elen, rc, out, rc == ERR_OK ? olen : 0, "altered", (long)pos + 1, mask, 0);
+				free(x);
+			}
+		/* truncated / extended container */
+		rc = U(out, &olen, epki, elen - 1, pwd, plen);
+		bpkiLine("bpkiU", kind, key, kl, pwd, plen, salt, 0, epki, elen - 1, rc, out, 0, "altered", 0, 0, 0);
+		free(epki);
+	}
+	/* refusals at the entry: iteration count below 10000, key lengths outside the lists */
+	{
+		octet key[64], pwd[4] = {1, 2, 3, 4}, salt[8] = {0}; size_t elen = 0; err_t rc;
+		vxRandBuf(key, 64); key[0] = 3;
+		rc = bpkiPrivkeyWrap(0, &elen, key, 32, pwd, 4, salt, 9999);
+		bpkiLine("bpkiW", "priv", key, 32, pwd, 4, salt, 9999, 0, 0, rc, 0, 0, "iter", 0, 0, 0);
+		rc = bpkiShareWrap(0, &elen, key, 17, pwd, 4, salt, 9999);
+		bpkiLine("bpkiW", "share", key, 17, pwd, 4, salt, 9999, 0, 0, rc, 0, 0, "iter", 0, 0, 0);
+		rc = bpkiPrivkeyWrap(0, &elen, key, 33, pwd, 4, salt, 10000);
+		bpkiLine("bpkiW", "priv", key, 33, pwd, 4, salt, 10000, 0, 0, rc, 0, 0, "len", 0, 0, 0);
+		rc = bpkiShareWrap(0, &elen, key, 32, pwd, 4, salt, 10000);
+		bpkiLine("bpkiW", "share", key, 32, pwd, 4, salt, 10000, 0, 0, rc, 0, 0, "len", 0, 0, 0);
+		key[0] = 17;
+		rc = bpkiShareWrap(0, &elen, key, 17, pwd, 4, salt, 10000);
+		bpkiLine("bpkiW", "share", key, 17, pwd, 4, salt, 10000, 0, 0, rc, 0, 0, "len", 0, 0, 0);
+	}
+	fflush(stdout);
+	return 0;
+}
